@@ -2,8 +2,8 @@
    `pprint` is the hand model of expression_t::print over the regenerated precedence numbers;
    `covered` is decidable and is evaluated by the check on every generated tree. *)
 From Coq Require Import List String Bool.
-From Utap Require Import SR ExprSyntax PrintImpl.
-From Utap.gen Require Import Gen_OpTable Gen_PrintPrec.
+From Utap Require Import SR ExprSyntax PrintImpl Builtins.
+From Utap.gen Require Import Gen_OpTable Gen_PrintPrec Gen_Builtins.
 Import ListNotations.
 
 (* whenever the printer's parentheses are the table-required ones plus its own extras, the printed
@@ -24,3 +24,16 @@ Example C03_covered_examples :
   covered (Bin _ _ _ _ B_T_MINUS a (Bin _ _ _ _ B_T_MINUS b c)) = true /\
   covered (Ite _ _ _ _ a (Bin _ _ _ _ B_T_ASSIGNMENT b c) (Un _ _ _ _ U_T_EXCLAM c)) = true.
 Proof. vm_compute. repeat split; reflexivity. Qed.
+
+(* ---- builtin functions: the keyword table, the grammar, the order of kind_t and the two name arrays (expression.cpp for str(),
+   prettyprinter.cpp), as they are in the tree today (gen/Gen_Builtins.v), compose to the identity ---- *)
+Theorem C03_builtin_names_roundtrip :
+  tables_ok gen_builtins gen_expression_names gen_expression_base = true /\ tables_ok gen_builtins gen_prettyprinter_names gen_prettyprinter_base = true.
+Proof. split; vm_compute; reflexivity. Qed.
+Print Assumptions C03_builtin_names_roundtrip.
+(* which means: every builtin call prints under the word it was written with, and no two kinds print alike, for every table passing the check *)
+Theorem C03_builtin_names_meaning : forall rows names base, tables_ok rows names base = true ->
+  (forall r, In r rows -> printed_name names base r = Some (word_of r)) /\
+  (forall r1 r2, In r1 rows -> In r2 rows -> printed_name names base r1 = printed_name names base r2 -> kind_of r1 = kind_of r2).
+Proof. exact roundtrip_spec. Qed.
+Print Assumptions C03_builtin_names_meaning.
